@@ -146,6 +146,29 @@ func (f *Frame) resolveLocal(name string, b *ssa.BasicBlock, st *State, phiOverr
 			return f.e.svOfVal(v, phi.Type()), true
 		}
 	}
+	// compiler-named phis (rangeindex) of enclosing loop headers: the innermost one that dominates b
+	if name == "rangeindex" {
+		var bestPhi *ssa.Phi
+		for _, bb := range f.fn.Blocks {
+			if bb == b || !bb.Dominates(b) {
+				continue
+			}
+			for _, in := range bb.Instrs {
+				phi, ok := in.(*ssa.Phi)
+				if !ok {
+					break
+				}
+				if phi.Comment == name {
+					if _, have := f.vals[phi]; have && (bestPhi == nil || bestPhi.Block().Dominates(bb)) {
+						bestPhi = phi
+					}
+				}
+			}
+		}
+		if bestPhi != nil {
+			return f.e.svOfVal(f.val(bestPhi), bestPhi.Type()), true
+		}
+	}
 	if strings.HasPrefix(name, "ssa_") { // explicit register reference ssa_t12
 		for _, bb := range f.fn.Blocks {
 			for _, in := range bb.Instrs {
